@@ -264,6 +264,10 @@ fn write_entry(
 
     let mut path_2_offset = 0;
     if let Some(path_2) = &entry.path_2 {
+        if file_format.offset_to_path_2_offset().is_none() {
+            // (the string would be written but nothing would point to it; it could never be read back)
+            return Err(emitter.emit(error!("'path_2: {:?}' cannot be stored in this version of the ANM format", path_2.value)));
+        }
         path_2_offset = w.pos()? - entry_pos;
         w.write_cstring(&Encoded::encode(path_2, DEFAULT_ENCODING).map_err(|e| emitter.emit(e))?, 16)?;
     };
